@@ -251,6 +251,8 @@ class Check:
             vac = vacuity()
             if vac: s.inconclusive.append({'status': 'vacuity', 'error': vac})
         code = 0
+        import shutil
+        shutil.rmtree(os.path.join(VERIF, 'replays', s.id), ignore_errors=True)
         os.makedirs(os.path.join(VERIF, 'replays', s.id), exist_ok=True)
         lines = []
         for k in s.known_hits:
